@@ -41,6 +41,16 @@ def cases(tier, seed):
     for sh in aux:
         yield "aegean_accepts", dict(shape=list(sh))
     yield "sr6_cli", dict()
+    # histories: every ordered pair (A, B) of shapes of SEQ_SHAPES, per factor: expand A, expand B, expand A again in
+    # one process (state carried between calls must not leak from one image into the next)
+    for factor in (FACT_Q if tier == "quick" else FACT_T):
+        if factor < 2:
+            continue
+        for sh in SEQ_SHAPES:
+            yield "sequence", dict(factor=factor, first=list(sh))
+
+
+SEQ_SHAPES = [(r, c) for r in (3, 5, 7, 8, 9, 12, 13, 16) for c in (2, 6, 9)]
 
 
 def _rng(seed, *k):
@@ -221,7 +231,54 @@ def ev_sr6_cli(case, ctx):
                 ctx.violation("SR6 compress+expand does not restore the image (%s)" % sig, "cli|" + sig)
 
 
-CLAUSES = dict(roundtrip=ev_roundtrip, aegean_accepts=ev_aegean_accepts, sr6_cli=ev_sr6_cli)
+def ev_sequence(case, ctx):
+    factor, first = case["factor"], tuple(case["first"])
+    d = os.environ["VERIF_SCRATCH"]
+
+    def one(shape, via, tag):
+        img = make_image("ramp", shape, factor, ctx.seed)
+        hl, hdr = _mkhdu(img, shape, False, ctx.seed)
+        if via == "file":
+            f, fo = os.path.join(d, "sq_in.fits"), os.path.join(d, "sq_c.fits")
+            hl.writeto(f, overwrite=True)
+            fits_tools.compress(f, factor, outfile=fo)
+            out = fits_tools.expand(fo)
+        else:
+            out = fits_tools.expand(fits_tools.compress(hl, factor))
+        odata = np.array(out[0].data, dtype=np.float64)
+        oh = out[0].header
+        if odata.shape != shape or (oh["NAXIS2"], oh["NAXIS1"]) != shape:
+            ctx.violation("%s: expanded shape %r (header NAXIS2,NAXIS1 = %r,%r), original %r" % (
+                tag, odata.shape, oh["NAXIS2"], oh["NAXIS1"], shape), "seq_shape|" + tag)
+            return False
+        rc = (shape[0] - 1) // factor * factor + 1
+        cc = (shape[1] - 1) // factor * factor + 1
+        err = np.max(np.abs(odata[:rc, :cc] - img[:rc, :cc].astype(np.float64)))
+        if not err <= 4 * np.finfo(np.float32).eps * np.max(np.abs(img)):
+            ctx.violation("%s: ramp not reproduced on complete cells (error %.4g)" % (tag, err), "seq_values|" + tag)
+            return False
+        for k in WCSKEYS_CDELT:
+            if abs(oh[k] - hdr[k]) > 1e-12 * max(1.0, abs(hdr[k])):
+                ctx.violation("%s: %s not restored: %r -> %r" % (tag, k, hdr[k], oh[k]), "seq_wcs|" + tag)
+                return False
+        return True
+
+    for second in SEQ_SHAPES:
+        for via in ("hdulist", "file"):
+            ctx.count("sequence")
+            sig = "f=%d,%dx%d_then_%dx%d,%s" % (factor, first[0], first[1], second[0], second[1], via)
+            if second != first:
+                ctx.nontrivial(sig)
+            try:
+                ok = [one(sh, via, "%s step %d (%dx%d)" % (sig, k, sh[0], sh[1])) for k, sh in enumerate((first, second, first))]
+            except Exception as e:
+                ctx.violation("compress/expand raised %r in history %s" % (e, sig), "seq_raise|" + sig)
+                ctx.outcome("seq:raise")
+                continue
+            ctx.outcome("seq:ok" if all(ok) else "seq:bad")
+
+
+CLAUSES = dict(sequence=ev_sequence, roundtrip=ev_roundtrip, aegean_accepts=ev_aegean_accepts, sr6_cli=ev_sr6_cli)
 
 
 def evaluate(clause, case, ctx):
